@@ -83,6 +83,32 @@ def run1D (xs ys : List Rat) (xdim fdim pref mul : Rat) (qs : List (Rat × Int))
   let o ← mk xs ys xdim fdim
   queries ((o.setPrefactor pref).multiply mul) qs
 
+/-- `Interpolation(const std::vector<std::vector<double>>& data, x_dim, f_dim)`: every row must have two entries
+    (diagnostic otherwise); the columns are handed to the list constructor -/
+def mkTable (rows : List (List Rat)) (xdim fdim : Rat) : Except Err Obj :=
+  if rows.any (fun r => r.length ≠ 2) then .error .diag
+  else mk (rows.map (fun r => r.getD 0 0)) (rows.map (fun r => r.getD 1 0)) xdim fdim
+
+/-- `Interpolation()`: the table `{-1,0,1} → {0,0,0}` through the list constructor -/
+def mkDefault : Except Err Obj := mk [-1, 0, 1] [0, 0, 0] (-1) (-1)
+
+/-- the constructor a request asks for: 0/1 lists (operator() / named `Interpolate`: the operator forwards),
+    2 the table constructor on the rows `{x_i, y_i}`, 3 the default constructor -/
+def construct (ctor : Nat) (xs ys : List Rat) (xdim fdim : Rat) : Except Err Obj :=
+  match ctor with
+  | 2 => if xs.length = ys.length then mkTable (List.zipWith (fun a b => [a, b]) xs ys) xdim fdim
+         else .error .diag       -- the harness then builds a one-entry row: "faulty dimensions"
+  | 3 => mkDefault
+  | _ => mk xs ys xdim fdim
+
+def run1Dc (ctor : Nat) (xs ys : List Rat) (xdim fdim pref mul : Rat) (qs : List (Rat × Int)) :
+    Except Err (List (Rat × Nat)) := do
+  let o ← construct ctor xs ys xdim fdim
+  queries ((o.setPrefactor pref).multiply mul) qs
+
+/-- `Interpolation_2D()`: 3×3 grid on `{-1,0,1}²`, all values 0 -/
+def mkDefault2 : Except Err Obj2 := mk2 [-1, 0, 1] [-1, 0, 1] [[0, 0, 0], [0, 0, 0], [0, 0, 0]] (-1) (-1) (-1)
+
 def queries2 (o : Obj2) : List (Rat × Rat) → Except Err (List (Rat × Nat × Nat))
   | [] => pure []
   | (vx, vy) :: rest => do
@@ -96,6 +122,14 @@ def queries2 (o : Obj2) : List (Rat × Rat) → Except Err (List (Rat × Nat × 
 def run2D (xs ys : List Rat) (f : List (List Rat)) (xdim ydim fdim pref mul : Rat)
     (qs : List (Rat × Rat)) : Except Err (List (Rat × Nat × Nat)) := do
   let o ← mk2 xs ys f xdim ydim fdim
+  queries2 { o with pref := pref * mul } qs
+
+/-- 2-D with a constructor flag: 3 = default constructor; 2 = the data-table constructor, requested only on complete
+    x-major tables of a strictly increasing grid, for which its sort / unique / shape / format checks pass and it forwards
+    the recovered lists to the list constructor (the correspondence run validates exactly that) -/
+def run2Dc (ctor : Nat) (xs ys : List Rat) (f : List (List Rat)) (xdim ydim fdim pref mul : Rat)
+    (qs : List (Rat × Rat)) : Except Err (List (Rat × Nat × Nat)) := do
+  let o ← if ctor = 3 then mkDefault2 else mk2 xs ys f xdim ydim fdim
   queries2 { o with pref := pref * mul } qs
 
 end Lp.C01
